@@ -982,6 +982,9 @@ def c02(ctx):
         ("many unanswered commands", b"*1\r\n$4\r\nPING\r\n" * 20000, b""),
         ("large bulk", b"*3\r\n$3\r\nSET\r\n$1\r\nk\r\n$1000000\r\n" + b"v" * 1000000 + CRLF, b"+OK\r\n"),
         ("nested huge counts", G, b"*2147483647\r\n" * 2000),
+        ("huge array count with a huge bulk length inside", G, b"*2147483647\r\n$268435456\r\nabc"),
+        ("huge array count with a huge bulk length inside", G, b"*3\r\n$3\r\nSET\r\n*2147483647\r\n$2147483646\r\nabc"),
+        ("huge argument count with a huge argument length", b"*2147483647\r\n$3\r\nSET\r\n$268435456\r\nk", b"+OK\r\n"),
     ]
     for what, cb, sb in heavy:
         for tail in (0, 1, 2):
